@@ -32,7 +32,7 @@ func init() {
 	hx.Register(&hx.Prop{
 		ID: "C07",
 		Rule: "exhaustive blocks: (1) 11 operation-level × 10 document-level security shapes (absent / [] / [{}] / one or several requirements, scopes, the same scheme under two requirements with different scopes, an undeclared scheme, optional authentication) × all 32 verdict vectors of the callback over the (scheme, scopes) pairs in use × fail-first/multi, and each shape pair without callback; " +
-			"(2) 15 parameter layouts (nil / empty / non-empty operation list, override, same name in another location, duplicates inside a list, a parameter after an overridden one, absent required / optional, `$ref` parameters) × all 8 option sets × 7 body shapes (none, valid, invalid, missing required, absent optional, undeclared media type) × passing/failing security; " +
+			"(2) 15 parameter layouts (nil / empty / non-empty operation list, override, same name in another location, duplicates inside a list, a parameter after an overridden one, absent required / optional, `$ref` parameters) × all 8 option sets × 7 body shapes (none, valid, invalid, missing required, absent optional, undeclared media type) × passing/failing security, every other case with request parts no parameter looks up (another header, another cookie, a second cookie of a name already sent with an invalid value); " +
 			"(3) every combination of request constructor (http.NewRequest, httptest.NewRequest) × route source (hand-built, gorillamux, legacy) × document source (Go values, marshalled and loaded) × callback reads the body or not × nil Options on a set of representative operations; the combinations also rotate through blocks 1 and 2; " +
 			"(4) a seeded random stream over all of these dimensions with up to 4+4 parameters and 3 requirements, a quarter of the cases followed by a history of 1-3 further calls; " +
 			"(5) histories of 5-6 calls for one operation and the same request facts: 15 parameter layouts × 7 body shapes and 11 × 10 security shape pairs, the later calls reusing {the same RequestValidationInput, a new input around the same *http.Request, a new request against the same document / route / router} with Options {a new struct, the old struct rewritten in place, nil}, flags flipped, the callback's verdicts changed or the callback removed: every call is compared with the model's and the specification's entry for it. " +
@@ -241,6 +241,15 @@ func c07Request(c hx.Case, b *c07built, ctor string) *http.Request {
 	}
 	for _, ck := range cookies {
 		req.AddCookie(&http.Cookie{Name: ck, Value: "5"})
+	}
+	if jbool(c, "noise") {
+		// parts of the request no parameter looks up: another header, another cookie, and behind every cookie sent a
+		// second one of the same name with a value above both maxima (req.Cookie returns the first)
+		req.Header.Set("x-other", "1")
+		req.AddCookie(&http.Cookie{Name: "zz", Value: "1"})
+		for _, ck := range cookies {
+			req.AddCookie(&http.Cookie{Name: ck, Value: "99"})
+		}
 	}
 	return req
 }
@@ -732,7 +741,7 @@ func genC07(ctx *hx.Ctx, emit func(hx.Case)) {
 					}
 					out(hx.Case{"opParams": lay[0], "pathParams": lay[1], "opSecurity": nil, "docSecurity": c07SecShapes[3],
 						"accepted": acc, "body": body, "excludeBody": o&1 != 0, "excludeQuery": o&2 != 0, "multi": o&4 != 0,
-						"authReadsBody": (li+o+bi)%2 == 1})
+						"authReadsBody": (li+o+bi)%2 == 1, "noise": (li+o+bi+sec)%2 == 0})
 				}
 			}
 		}
@@ -900,6 +909,9 @@ func genC07(ctx *hx.Ctx, emit func(hx.Case)) {
 		if r.Chance(8) {
 			c["authNil"] = true
 		}
+		if r.Chance(30) {
+			c["noise"] = true
+		}
 		if r.Chance(25) {
 			hist := []any{}
 			for k, m := 0, 1+r.Intn(3); k < m; k++ {
@@ -969,7 +981,7 @@ func shrinkC07(c hx.Case) []hx.Case {
 			}
 		}
 	}
-	for _, k := range []string{"excludeBody", "excludeQuery", "multi", "authReadsBody", "optionsNil"} {
+	for _, k := range []string{"excludeBody", "excludeQuery", "multi", "authReadsBody", "optionsNil", "noise"} {
 		if jbool(c, k) {
 			x := cloneCase(c)
 			x[k] = false
